@@ -150,6 +150,15 @@ def filter_text(f):
     return f.get('pre', '') + s + f.get('post', '')
 
 
+OLDEST = {'kind': 'scan', 'v': 0, 'u': 99999, 'rows': [0]}      # pool[0] of every full-cache run: the oldest entry
+
+
+def full_cache_texts():
+    """What fills the as-shipped cache before a full-cache run starts, oldest first: the same texts for every such
+    run (they do not depend on the run's grid; rows 0..7 exist in every grid)."""
+    return [filter_text(OLDEST)] + [filter_text({'kind': 'scan', 'v': u % 8, 'u': 100000 + u}) for u in range(499)]
+
+
 def interval_filter(q, nrows=HIST_ROWS):
     """q-th interval [a, b) over nrows rows: all distinct, all non-empty."""
     a = 0
@@ -215,7 +224,7 @@ class C13(BaseCheck):
 
     # warm runs start from a process in which the lazily streamlined pyparsing grammar has
     # already been used once (64 ms the first time); cold runs (knob) start from the bare import
-    def zygote_init(self):
+    def zygote_init(self, kind=None):
         old = sys.stdout
         sys.stdout = sched.SimStdout()
         try:
@@ -224,10 +233,22 @@ class C13(BaseCheck):
             g.filter('warmup and n == 0 or not x->y')
             if hasattr(getattr(self.gf, '_filter_function', None), 'cache_clear'):
                 self.gf._filter_function.cache_clear()
+                if kind == 'full':
+                    # the as-shipped cache filled to capacity once, here: every run forked from this zygote starts
+                    # with the same 500 entries (oldest first) at no cost, so full-cache runs can be drawn often
+                    for text in full_cache_texts():
+                        g.filter(text)
+                    self._cache_is_full = True
         finally:
             sys.stdout = old
         gc.collect()
         gc.freeze()
+
+    def zygote_kind(self, case):
+        kn = case.get('knobs', {})
+        if case.get('class') in ('threads', 'threads-fault') and kn.get('prefill') == 500 and kn.get('cache') is None:
+            return 'full'
+        return None
 
     def wants_zygote(self, case):
         return bool(case['knobs'].get('warm', True))
@@ -399,7 +420,20 @@ class C13(BaseCheck):
         if knobs['cache'] is not None:
             knobs['prefill'] = knobs['cache'] if k.random() < 0.3 else 0
         else:
-            knobs['prefill'] = 500 if k.random() < (0.06 if tier == 'quick' else 0.15) else 0
+            knobs['prefill'] = 500 if k.random() < 0.3 else 0
+        if k.random() < 0.12:
+            # one thread parked at a point early in its run while the others run to completion (log-uniform position)
+            knobs['strategy'] = {'kind': 'park', 'victim': k.randrange(8), 'at': int(round(3000 ** k.random()))}
+        if knobs['prefill'] == 500 and k.random() < 0.6:
+            # a hit on the oldest entry of a full cache, parked somewhere inside that hit (about 200 pre-emption points
+            # from grid.filter() to the evaluation) while the others compile
+            knobs['strategy'] = {'kind': 'park', 'victim': 0, 'at': k.randrange(1, 250)}
+        if knobs['prefill'] == 500:
+            # the oldest entry of the full cache is the same filter in every such run (the cache is filled once, in a
+            # zygote): it becomes pool[0], and nothing else in the pool selects the same rows
+            pool[:] = [dict(OLDEST)] + [f for f in pool if f['rows'] != OLDEST['rows']]
+            if not knobs['warm']:
+                knobs['warm'] = True
         if knobs['prefill']:
             threads[0]['ops'] = [{'op': 'filter', 'f': 0}, {'op': 'recheck'}, {'op': 'filter', 'f': 0}] + threads[0]['ops'][:2]
             for t in threads[1:]:
@@ -640,7 +674,14 @@ class C13(BaseCheck):
             if knobs.get('unindexed'):
                 shared = shared[:]
                 stats['unindexed_shared_grid_runs'] = 1
-            if knobs.get('prefill'):
+            if knobs.get('prefill') == 500 and knobs.get('cache') is None:
+                if not getattr(self, '_cache_is_full', False):       # not forked from the full-cache zygote (replay, forced fork)
+                    pre = build_grid(hs, spec)
+                    for text in full_cache_texts():
+                        pre.filter(text)
+                stats['prefilled_cache_runs'] = 1
+                stats['full_as_shipped_cache_runs'] = 1
+            elif knobs.get('prefill'):
                 pre = build_grid(hs, spec)
                 pre.filter(pool[0]['text'])                      # the oldest entry: what thread 0 keeps using
                 for u in range(knobs['prefill'] - 1):
@@ -661,6 +702,8 @@ class C13(BaseCheck):
                 strat = sched.RandomStrategy(srnd, st['p'])
             elif st['kind'] == 'pct':
                 strat = sched.PCTStrategy(srnd, nthreads, st['d'], max(50, 170 * max(1, total_ops)))
+            elif st['kind'] == 'park':
+                strat = sched.ParkStrategy(srnd, nthreads, st['victim'] % nthreads, st['at'])
             else:
                 strat = sched.ReplayStrategy(st['decisions'])
             prefixes = [self.repo_prefix] + ([self.pp_prefix] if knobs.get('deps') else [])
@@ -685,6 +728,7 @@ class C13(BaseCheck):
                     kept = []      # (filter, expected rows, result grid): previously obtained results
                     for oi, o in enumerate(prog['ops']):
                         op = o['op']
+                        out.cur_op[tid] = oi
                         if op == 'filter':
                             f = pool[o['f'] % len(pool)]
                             lim = o.get('limit', 0)
@@ -845,7 +889,9 @@ class C13(BaseCheck):
                             'solo': {'text': text, 'want': 'exception', 'limit': 0}}
                 continue
             if isinstance(got, tuple) and got and got[0] == 'exc':
-                if fault_fired and ('(injected)' in got[2] or got[1] == 'UnicodeEncodeError'):
+                # only the call during which the stream actually failed is excused: the same error coming back from
+                # a later call that wrote nothing is a remembered failure, not a degraded one
+                if (tid, oi) in out.fired_ops and ('(injected)' in got[2] or got[1] == 'UnicodeEncodeError'):
                     degraded += 1    # the injected stdout fault itself surfaced; anything else is judged strictly
                     continue
                 viol = {'clause': 'exception', 'detail': {'thread': tid, 'op': oi, 'kind': kind, 'filter': text,
